@@ -28,6 +28,7 @@ structure Table where
   poolPuts : List (String × String × String)
   pkgObjects : List (String × String × String) := []
   readerFieldWrites : List (String × String) := []
+  optsFieldWrites : List (String × String) := []
 
 /-- makers of package-level objects whose results are immutable after package initialisation (error values, version
     descriptors, tables and slices no function assigns to — assignments are `pkgVarWrites`) or documented as safe for
@@ -65,7 +66,10 @@ def RaceFree (t : Table) : Bool :=
   t.pkgObjects.all (fun o => allowedMakers.contains o.2.2) &&
   -- a file reader keeps nothing between calls: the only field its methods assign is the pooled input buffer, in Close.
   -- In particular Next does not keep the record it returns (which belongs to whoever received it)
-  t.readerFieldWrites.all (fun w => w == ("bufferedReader", "Close"))
+  t.readerFieldWrites.all (fun w => w == ("bufferedReader", "Close")) &&
+  -- an options object is written only while it is being constructed (by the option appliers): a reader, unmarshaler or
+  -- builder shares it with every record it produces, and those may be in other goroutines' hands
+  t.optsFieldWrites.isEmpty
 
 /-- a call path inside the type: consecutive methods are caller/callee, and no method after the first takes the lock -/
 def UnlockedPath (t : Table) : List String → Prop
